@@ -14,27 +14,27 @@ LEAN = ["Ymq.Props.C14"]
 AUDIT = "Ymq.Audit.C14"
 THEOREMS = ["Ymq.C14." + t for t in (
     "gauss_inv gauss_total gauss_kernel gauss_independent gauss_count "
-    "qs_optimize_same_matrix optMul_few_rows lanczos_final lanczos_final_total").split()]
+    "qs_optimize_same_matrix optMul_few_rows block_product_rotation lanczos_final lanczos_final_total").split()]
 HYPOTHESES = []
 PROFILES = ["release", "chk"]
 TIMEOUT = 30.0
 RULE = ("matrices over GF(2): exhaustive up to 3x3, then random shapes 1x1 .. 6000+ columns (thorough: 20000) of two density profiles "
         "(sieve-like: heavy low rows + sparse tail with 1/i decay, uniform: weight-w columns or density 1/2), planted coranks 0..100, "
-        "duplicate and zero columns, empty matrix, zero-row matrices; Gauss answers are compared with the Lean model up to 300 columns; "
+        "duplicate and zero columns, empty matrix, zero-row matrices; Gauss answers are compared with the Lean model up to 700 columns; "
         "Lanczos is repeated over its own randomness and every returned basis is recomputed by the Lean model from (B, Y); "
         "non-trivial = at least 2 columns; distinct by request line")
 MODELLED = [
     "matrix::gf2::kernel_gauss line by line on bit lists: leading-zero index, first minimum, the three swaps, xor of column and coefficient "
     "row, both debug assertions, both exits, the code after the loop (Ymq/Model/Gf2.lean)",
-    "matrix::gf2::qs_optimize (dense 64-row block + coordinate list), impl Mul<&Block> for &SparseMatOpt / &SparseMat, &Block * &Block (as its "
-    "defining sum), and the final stage of kernel_lanczos: B*Y, bit columns, kernel_gauss, Y*K, swap_remove of null vectors",
+    "matrix::gf2::qs_optimize (dense 64-row block + coordinate list), impl Mul<&Block> for &SparseMatOpt / &SparseMat, &Block * &Block "
+    "(word level: rotate_right accumulation, SmallMat::transpose, rotate_left; proved equal to the bilinear sum), and the final stage of "
+    "kernel_lanczos: B*Y, bit columns, kernel_gauss, Y*K, swap_remove of null vectors",
 ]
 UNMODELLED = [
     "the randomised block Lanczos iteration (genblock, mul_aab_opt, SmallMat rank/inverse/pseudoinverse, Block::muladd) is not modelled: "
     "the theorem lanczos_final holds for EVERY block Y, the iteration is an arbitrary producer of Y (exported by the hook and replayed)",
     "bitvec_simd::BitVec and wide::u64x4 storage (SIMD xor, leading_zeros, the raw pointer read of the first lane) are modelled as bit lists",
     "the order produced by sort_unstable_by_key in qs_optimize (only a permutation of the coordinate list; the product is proved independent of it)",
-    "the rotation trick of &Block * &Block and SmallMat::transpose are modelled by the plain bilinear sum (compared on the gf2_blockdot stream)",
     "termination of kernel_lanczos (genblock loops forever when B^T B has rank < 64) is outside the property",
 ]
 
@@ -60,15 +60,23 @@ def rank_of(vs):
     return r
 
 
+def bits_of(x):
+    """indices of the set bits, increasing"""
+    if x.bit_count() * 40 < x.bit_length():
+        out = []
+        while x:
+            low = x & -x
+            out.append(low.bit_length() - 1)
+            x ^= low
+        return out
+    return [i for i, ch in enumerate(reversed(bin(x)[2:])) if ch == "1"]
+
+
 def mat_vec(cols, v):
     """xor of the columns selected by the bits of v"""
     acc = 0
-    j = 0
-    while v:
-        if v & 1:
-            acc ^= cols[j]
-        v >>= 1
-        j += 1
+    for j in bits_of(v):
+        acc ^= cols[j]
     return acc
 
 
@@ -113,14 +121,7 @@ def dec_vecs(s):
 
 
 def sparse_of_int(x):
-    out = []
-    i = 0
-    while x:
-        if x & 1:
-            out.append(i)
-        x >>= 1
-        i += 1
-    return out
+    return bits_of(x)
 
 
 _cache = {}
@@ -168,12 +169,13 @@ _rank_cache = {}
 
 
 def rank_cached(line, cols):
-    r = _rank_cache.get(line)
+    key = hash(tuple(cols))
+    r = _rank_cache.get(key)
     if r is None:
         r = rank_of(cols)
         if len(_rank_cache) > 4096:
             _rank_cache.clear()
-        _rank_cache[line] = r
+        _rank_cache[key] = r
     return r
 
 
@@ -212,24 +214,19 @@ def compress_rows(cols, nrows):
     """what relations.rs final_step does before calling a solver: rows (primes) with at most one occurrence are
     dropped and the others are sorted by decreasing number of occurrences"""
     occ = [0] * nrows
-    for c in cols:
-        i = 0
-        while c:
-            if c & 1:
-                occ[i] += 1
-            c >>= 1
-            i += 1
+    sp = [bits_of(c) for c in cols]
+    for c in sp:
+        for i in c:
+            occ[i] += 1
     keep = sorted((i for i in range(nrows) if occ[i] >= 2), key=lambda i: -occ[i])
     pos = {i: k for k, i in enumerate(keep)}
     out = []
-    for c in cols:
+    for c in sp:
         x = 0
-        i = 0
-        while c:
-            if c & 1 and i in pos:
-                x |= 1 << pos[i]
-            c >>= 1
-            i += 1
+        for i in c:
+            k = pos.get(i)
+            if k is not None:
+                x |= 1 << k
         out.append(x)
     return out, len(keep)
 
@@ -266,7 +263,7 @@ def make_matrix(rng, nrows, ncols, profile, corank=0, dups=0, zeros=0, indep=Tru
     else:
         cand = None
     cols = []
-    el = Elim() if indep else None
+    el = Elim() if indep and ncols <= 1500 else None      # beyond: the corank is whatever the profile gives
     tries = 0
     while len(cols) < fresh and tries < 3 * fresh + 20:
         tries += 1
@@ -390,8 +387,8 @@ def gauss_cases(rng, scale, extended):
                                dups=rng.choice([0, 0, 1, 3]), zeros=rng.choice([0, 0, 1, 2]), indep=rng.randrange(4) > 0)
         yield gauss_case(cols, nr, fmt=rng.choice(["s", "h", "b"]) if nr else "h")
     # medium: compared with the Lean model
-    for _ in range(48 * scale):
-        ncols = rng.randrange(66, 301)
+    for _ in range(110 * scale):
+        ncols = rng.randrange(66, 301) if rng.randrange(12) else rng.randrange(301, 700)
         corank = rng.choice([0, 0, 1, 1, 3, 10, 40, 100])
         extra = rng.choice([0, 0, 1, 2])
         nrows = max(1, ncols - corank - extra + rng.choice([0, 0, 1, 5, 30]))
@@ -404,7 +401,7 @@ def gauss_cases(rng, scale, extended):
             cols, nr = make_matrix(rng, nrows, ncols, "sieve", rng.choice([0, 2]))
             yield gauss_case(cols, nr, k=ncols <= 300)
     # large: oracle only (final_step uses kernel_gauss up to 5000 rows)
-    sizes = [700, 1500, 3000, 5000] if scale == 1 else [700, 1000, 1500, 2000, 3000, 4000, 5000, 6200]
+    sizes = [700, 1500, 2500, 4000, 5050] if scale == 1 else [700, 1000, 1500, 2000, 3000, 4000, 5050, 6200]
     for ncols in sizes * (1 if scale == 1 else 2):
         for profile in (["sieve-c"] if ncols > 3000 else ["sieve-c", "uniform"]):
             corank = rng.choice([0, 1, 7, 60, 100])
@@ -418,16 +415,21 @@ def gauss_cases(rng, scale, extended):
     yield Case("gf2_gauss 3 2 s 0,1;4", o=True)
 
 
+def sieve_compressed(rng, rows0, ncand):
+    """ncand sieve-like columns on rows0 rows, then the row compression of final_step"""
+    heavy = rng.choice([1.0, 2.0, 3.5])
+    cand = [col_sieve(rng, rows0, heavy) for _ in range(ncand)]
+    return compress_rows(cand, rows0)
+
+
 def lanczos_matrix(rng, nrows, excess, profile, corank):
-    """ncols = (rows kept) + excess; exact corank = max(excess, 0) + corank + dups + zeros when the fresh columns
-    are independent"""
+    """(columns, rows). ncols = rows + excess; `corank` planted xor-combinations, some duplicate / null columns
+    (with independent fresh columns the corank is max(excess, 0) + corank + dups + zeros)"""
     extra = rng.choice([0, 0, 1, 2])
     if profile == "sieve-c":
-        cols, nr = make_matrix(rng, nrows, nrows, profile, 0, 0, 0)
-        # keep rows-kept + excess - corank - extra fresh columns
-        want = max(1, nr + excess - corank - extra)
+        cols, nr = sieve_compressed(rng, nrows, nrows + max(excess, 0) + 8)
+        want = max(1, min(len(cols), nr + excess - corank - extra))
         cols = cols[:want]
-        more, _ = make_matrix(rng, nr, 0, "uniform")
         el = list(cols)
         for _ in range(corank):
             x = 0
@@ -447,11 +449,13 @@ def lanczos_matrix(rng, nrows, excess, profile, corank):
 def lanczos_cases(rng, scale, extended):
     run = 0
     # medium matrices: several runs each
-    for _ in range(14 * scale):
+    for _ in range(30 * scale):
         nrows = rng.randrange(150, 400)
         excess = rng.choice([-20, -1, 0, 0, 1, 3, 10, 50])
-        corank = rng.choice([0, 0, 1, 1, 5, 30, 100])
+        corank = min(rng.choice([0, 0, 1, 1, 5, 30, 100]), nrows + min(excess, 0) - 110)   # keep the rank well above 64
         cols, nr = lanczos_matrix(rng, nrows, excess, rng.choice(PROFILES_M), corank)
+        if rank_of(cols) < 100:
+            continue          # kernel_lanczos needs rank(B B^T B) >= 64 to leave genblock (see the explicit case below)
         rep = rng.randrange(4) == 0
         for _ in range(3):
             run += 1
@@ -472,14 +476,19 @@ def lanczos_cases(rng, scale, extended):
                 run += 1
                 yield lanczos_case(cols, nr, run, timeout=120)
     # above the switch of final_step (size = number of rows > 5000 selects Lanczos)
-    for nrows in ([6100] if scale == 1 else [5001, 6100, 12000, 20000]):
-        cols, nr = lanczos_matrix(rng, nrows + nrows // 3, rng.choice([2, 10]), "sieve-c", rng.choice([3, 40]))
+    for nrows in ([5600, 6400] if scale == 1 else [5300, 6100, 9000, 12000, 20000]):
+        cols, nr = lanczos_matrix(rng, nrows + nrows // 4, rng.choice([2, 10]), "sieve-c", rng.choice([3, 40]))
         for _ in range(2 if scale == 1 else 3):
             run += 1
             yield lanczos_case(cols, nr, run, timeout=600, shuffle_rng=rng if run % 2 else None)
     # fewer than 64 rows: the copy of the dense block indexes out of range (panic, documented)
     cols, nr = make_matrix(rng, 40, 50, "uniform", 3)
     yield lanczos_case(cols, nr, 0, fu=False, timeout=10)
+    # rank below 64: genblock never finds a block with a full-rank Gram matrix (no answer; termination is not part of C14)
+    cols, nr = make_matrix(rng, 120, 130, "uniform", 80)
+    c = lanczos_case(cols, nr, 0, fu=False, timeout=3)
+    c.profiles = ["release"]
+    yield c
 
 
 def product_cases(rng, scale, extended):
@@ -651,12 +660,18 @@ def nontrivial(case, ans):
 
 
 CLAIM = ("Lean theorems, for all matrices over GF(2) (any shape, any content), about a line-by-line model of kernel_gauss: the coefficient "
-         "rows track the column operations (cols[j] = M*coefs[j] at every step), every returned vector is non-zero and in the kernel, the "
-         "returned family is linearly independent and has ncols - rank M elements (Mathlib Matrix.rank over ZMod 2), no panic site is reached; "
-         "about the final stage of kernel_lanczos for EVERY block Y (each returned vector is non-zero and B*v = 0) and about qs_optimize "
-         "(same matrix). The models are tied to the code by differential runs (release and checked profiles), the Lanczos block Y being "
-         "exported by a hook and replayed by the model; a Python GF(2) oracle checks every implementation answer.")
+         "rows track the column operations (cols[j] = M*coefs[j], zeros[j] = leading_zeros(cols[j]) at every step, processed columns with strictly "
+         "increasing leading positions, coefs linearly independent), no panic site is reached, every returned vector is non-zero and in the kernel, "
+         "the returned family is linearly independent (list form and Mathlib LinearIndependent over ZMod 2) and has ncols - rank M elements "
+         "(Mathlib Matrix.rank); about the final stage of kernel_lanczos for EVERY block Y (each returned vector is non-zero and B*v = 0; no "
+         "panic on well-formed input with >= 64 rows), about qs_optimize (same matrix as the plain sparse product, for any order of the "
+         "coordinate list) and about the rotation trick of the block product. The models are tied to the code by differential runs (release and "
+         "checked profiles), the Lanczos block Y being exported by a hook and replayed by the model; a Python GF(2) oracle checks every "
+         "implementation answer (kernel membership, non-zero, independence and count = ncols - rank by its own elimination).")
 LEVEL_NOTE = ("Trusted: Lean kernel (+propext, Classical.choice, Quot.sound); the hand-written models' correspondence to the Rust code (sampled "
               "by the harness in both profiles, not proved); Python integers in the oracle. The randomised Lanczos iteration is not modelled "
-              "(arbitrary producer of Y); its termination is outside the property.")
+              "(arbitrary producer of Y): soundness of what is returned does not depend on it; its termination (genblock loops forever when "
+              "rank(B B^T B) < 64), its panic with fewer than 64 rows (theorem optMul_few_rows) and its completeness (it may return no vector, "
+              "or many copies of few vectors) are outside the property. Sparse theorems assume row indices < k and fewer than 2^32 rows and "
+              "columns (coordinates are stored as u32). Repeated row indices in a sparse column cancel in pairs (after fix 8171183 in every routine).")
 TECHNIQUE = "Lean 4 proof about a hand model + differential correspondence check + spec oracle"
